@@ -450,3 +450,28 @@ def s_lru_cache(maxsize=128, typed=False):
 
 def s_cache(fn):
     return s_lru_cache(None)(fn)
+
+
+# ------------------------------------------------------------------------------- struct.Struct
+class SStruct:
+    """struct.Struct working on symbolic values (delegates to the pack / unpack stubs)"""
+
+    def __init__(self, fmt):
+        self.format = fmt.concrete() if isinstance(fmt, SymSeq) else fmt
+        self._real = struct.Struct(self.format)
+        self.size = self._real.size
+
+    def pack(self, *vals):
+        return s_pack(self.format, *vals)
+
+    def unpack(self, data):
+        return s_unpack(self.format, data)
+
+    def unpack_from(self, buffer, offset=0):
+        return s_unpack_from(self.format, buffer, offset)
+
+    def iter_unpack(self, data):
+        raise Unsupported("Struct.iter_unpack")
+
+    def pack_into(self, *a):
+        raise Unsupported("Struct.pack_into")
